@@ -285,3 +285,8 @@ Proof.
   split; [repeat constructor; eexists; split; reflexivity|].
   split; [repeat constructor; eexists; split; reflexivity|vm_compute; reflexivity].
 Qed.
+Example ex_lookup_vector_row :
+  rect 1 [VTuple [VInt 1]; VTuple [VInt 2]; VTuple [VInt 3]]
+  /\ lookup.f_lookup (VFloat (5 # 2)) (VTuple [VTuple [VInt 1]; VTuple [VInt 2]; VTuple [VInt 3]])
+       (VTuple [VTuple [s_a; s_b; s_B; VInt 9]]) = Ok s_b.
+Proof. split; [repeat constructor; eexists; split; reflexivity|vm_compute; reflexivity]. Qed.
